@@ -19,6 +19,7 @@ fn judge(rep: &alloc::Report, what: &str) -> Vec<Violation> {
     if let Some(m) = rep.mismatches.first() {
         v.push(viol("C19.layout", format!("C19.layout:{}", if m.0 != m.2 { "size" } else { "align" }), format!("{}: a block allocated with size {} align {} was released with size {} align {} ({} mismatching releases)", what, m.0, m.1, m.2, m.3, rep.mismatches.len())));
     }
+    if rep.double_frees != 0 { v.push(viol("C19.free", "C19.free:double".into(), format!("{}: {} releases of blocks that had already been released (double free)", what, rep.double_frees))); }
     if rep.unknown_frees != 0 { v.push(viol("C19.free", "C19.free:unknown".into(), format!("{}: {} releases of blocks that were not allocated inside the session (double free or foreign pointer)", what, rep.unknown_frees))); }
     if rep.live_bytes != 0 { v.push(viol("C19.leak", "C19.leak".into(), format!("{}: {} bytes ({} allocations, {} releases) still allocated after every uflow object was dropped", what, rep.live_bytes, rep.allocs, rep.frees))); }
     v
@@ -34,7 +35,7 @@ fn lw_scenario_tracked(tag: &str, cfg: LwCfg, script: Vec<Op>, env: LwEnv, d: us
         if stop > 0 { env2.max_rounds = stop; env2.dev_rounds = env2.dev_rounds.min(stop); }
         uflow::verif::net::reset();
         ch.reserve(4200);
-        let ((outcome, wit, trans, delivered), rep) = alloc::tracked(|| {
+        let ((outcome, wit, trans, delivered), rep) = alloc::tracked_quarantine(|| {
             let tr = run_lw(&cfg, &si, &env2, ch, None);
             let r = (outcome_hash(&tr), crate::lwprops::witnesses(&cfg, &si, &tr), tr.obs.len() as u64, tr.dels.len());
             drop(tr);
@@ -55,7 +56,7 @@ fn ew_scenario_tracked(tag: &str, cfg: EwCfg, script: Vec<EwOp>, env: EwEnv, d: 
         if stop > 0 { env2.max_rounds = stop; env2.dev_rounds = env2.dev_rounds.min(stop.saturating_sub(env2.dev_start)); env2.stop_when_done = false; }
         uflow::verif::net::reset();
         ch.reserve(4200);
-        let ((outcome, wit, trans), rep) = alloc::tracked(|| {
+        let ((outcome, wit, trans), rep) = alloc::tracked_quarantine(|| {
             let tr = run_ew(&cfg, &script, &env2, ch);
             let r = (ew_outcome(&tr), crate::eprops::ew_witnesses(&tr), tr.obs.len() as u64);
             drop(tr);
@@ -96,7 +97,7 @@ fn forged_reassembly() -> Scenario {
         let push = ch.free(2) == 1;           // a sync frame pushes the window past everything before teardown
         ch.reserve(4200);
         let what = format!("forged packet of {} fragments (last one {} B), arrival order {:?}{}{}{}", nfrag, last_len, order, if dup > 0 { format!(", fragment {} twice", order[dup - 1]) } else { String::new() }, if second { ", followed by a second packet" } else { "" }, if push { ", window pushed past by a sync frame" } else { "" });
-        let (delivered, rep) = alloc::tracked(|| {
+        let (delivered, rep) = alloc::tracked_quarantine(|| {
             uflow::verif::set_time_ms(0); uflow::verif::seed(5); uflow::verif::set_fuel(2_000_000);
             let cfg = LwCfg { pwin: 4, fwin: 64, rx_alloc: [100_000, 100_000], ..LwCfg::small() };
             let mut hc = uflow::verif::HalfConnection::new(cfg.half(0));
@@ -162,6 +163,12 @@ pub fn build(quick: bool) -> PropRun {
             }
         }
     }
+    // TimeSensitive packets that go stale in the send queue, are given up after being dequeued, or are cut across flushes (the pool's
+    // stall scripts), torn down at every round
+    for sp in crate::pool::lw_pool(quick).into_iter().filter(|s| s.tag.starts_with("stall.ts") || s.tag.starts_with("stall.cut")) {
+        let mut env = sp.env.clone(); env.max_rounds = 400; env.dev_rounds = env.dev_rounds.min(5);
+        scs.push(lw_scenario_tracked(&format!("C19.lw.{}", sp.tag), sp.cfg.clone(), sp.script.ops.clone(), env, 1, if quick { 8 } else { 20 }));
+    }
     // endpoint world: client / server dropped in every lifecycle state
     for (sname, script) in [
         ("connect-transfer-disconnect", vec![at(0, Act::Connect(0)), after_c(0, 1, Act::CSend(0, 0, Reliable, 3000)), after_s(0, 1, Act::SSend(0, 1, Persistent, 2897)), after_c(0, 6, Act::CDisconnect(0))]),
@@ -176,9 +183,18 @@ pub fn build(quick: bool) -> PropRun {
         scs.push(ew_scenario_tracked(&format!("C19.ew.{}", sname), cfg, script, env, if quick { 1 } else { 2 }, if quick { 14 } else { 30 }));
     }
     scs.push(forged_reassembly());
+    // a handshake that never completes while the application has already queued packets (they wait in the pending client), run into the
+    // 22 s time-out or torn down before it; and the same with the SYN-ACKs lost
+    for (sname, lose_syn, lose_synack) in [("syn-never-answered", 12usize, 0usize), ("synack-always-lost", 0, 12)] {
+        let cfg = EwCfg::new(1);
+        let script = vec![at(0, Act::Connect(0)), at(1, Act::CSend(0, 0, Reliable, 100)), at(1, Act::CSend(0, 1, Reliable, 3 * 1448 + 17)), at(2, Act::CSend(0, 2, Unreliable, 1448))];
+        let mut env = EwEnv::basic(0, 60);
+        env.fates = DF_NONE; env.deltas = &[500]; env.fair_delta = 500; env.lose_syn = lose_syn; env.lose_synack = lose_synack; env.stop_when_done = false;
+        scs.push(ew_scenario_tracked(&format!("C19.ew.pending-with-queued-sends.{}", sname), cfg, script, env, 0, 58));
+    }
     PropRun { level: "fault_enumeration", scenarios: scs, units: vec![], replay_case: None, summary: Summary {
         rule: "link-world and endpoint-world executions (deviation-bounded fates/timings; the point at which every uflow object is dropped is a completely enumerated free choice) run under a checking global allocator: every release is compared with the size/alignment of its allocation, unknown releases are counted, and live bytes must return to zero after teardown; distinct = distinct (outcome, peak heap class)".into(),
-        bounds: json!({"packet_sizes": sizes, "paths": ["delivered", "skipped by a later packet", "window advanced over a partial packet", "dropped mid-transfer at every round", "client/server dropped in every lifecycle state", "forged fragment sets: 1-4 fragments x last fragment 0/1/724/1447/1448 B x every arrival order x duplicate x partial/complete x window pushed past"], "d": if quick { 1 } else { 2 }}),
+        bounds: json!({"packet_sizes": sizes, "paths": ["delivered", "skipped by a later packet", "window advanced over a partial packet", "dropped mid-transfer at every round", "client/server dropped in every lifecycle state", "TimeSensitive packets going stale / given up / cut across flushes", "handshake never completed with packets queued in the pending client", "forged fragment sets: 1-4 fragments x last fragment 0/1/724/1447/1448 B x every arrival order x duplicate x partial/complete x window pushed past"], "d": if quick { 1 } else { 2 }}),
         assumptions: vec!["the allocator sees every allocation of the thread inside the session, the harness's own included; the harness's allocations are made by std collections whose layouts are correct, so a mismatch is attributed to uflow (its only unsafe re-boxing site is FragmentBuffer::finalize)".into(),
                           "requested sizes are compared, not allocator-internal size classes".into()],
         witness_names: vec![], extra: json!({}), exhaustive: true } }
